@@ -237,7 +237,9 @@ func (d *segmentationDescriptor) parseDescriptor(data []byte) error {
 			if buf.Len() < 10 {
 				return gots.ErrInvalidSCTE35Length
 			}
-			d.duration = uint40(buf.Next(5))
+			// segmentation_duration is a full 40 bit field (uint40 keeps 33 bits)
+			durBytes := buf.Next(5)
+			d.duration = gots.PTS(durBytes[0])<<32 | gots.PTS(binary.BigEndian.Uint32(durBytes[1:]))
 		}
 		// Upid unneeded now...
 		d.upidType = SegUPIDType(readByte())
